@@ -422,7 +422,8 @@ MANIFEST = dict(
     level_text="Lean 4 theorems about an executable model of save_model/load_model (round trip of every variable list: names, "
                "order, shapes, types, aliases; every attribute value at every parameter vector via the row-offset bookkeeping "
                "row(i) = sum of numel before i; pass-through of outputs/delay states/alias relation/functions; delay durations "
-               "equal at every point whatever false dependencies the loader keeps), tied per run to the real code on generated "
+               "equal at every point whatever false dependencies the loader keeps; soundness of the NOT_MX/MX_DEPENDENT/MX_INDEPENDENT "
+               "classification on attribute expressions incl. the NaN call; a model is served only if every non-excluded option is equal), tied per run to the real code on generated "
                "models in both halves (save vs the real cache file, load vs the real CachedModel) and checked by a direct "
                "fresh-vs-cached oracle for cache and (sampled) gcc codegen.",
     level_note="Trusted: Lean kernel + standard axioms; the harness; pickle, CasADi serialisation / depends_on, gcc and ca.external "
